@@ -165,6 +165,13 @@ Theorem C17_deser_raw_fields_refuted :
                     w_class w_opts w_maps w_conv.
 Proof. exact deser_raw_fields_refuted. Qed.
 
+Theorem C17_deser_raw_trusted_refuted :
+  deser_internal std_fn std_cd_params std_prelude raw_trusted_sites (InitForce 1) EDeserializer
+                 w_class w_opts_trusted w_maps w_doc
+  <> deser_internal std_fn std_cd_params std_prelude raw_trusted_sites (InitForce 1) EDeserializer
+                    w_class w_opts_trusted w_maps w_conv.
+Proof. exact deser_raw_trusted_refuted. Qed.
+
 Theorem C17_init_setdefault_refuted :
   dict_get (versioned_init_kwargs_s (InitSetDefault 1) w_maps [ (PStr (s2p "version"), PNum (NInt 1)) ]) version_key
   <> Some (PNum (NInt 2)).
@@ -189,6 +196,7 @@ Print Assumptions C17_src_deser_keys_from_converted.
 Print Assumptions C17_src_new_instance_latest.
 Print Assumptions C17_deser_raw_undefined_refuted.
 Print Assumptions C17_deser_raw_fields_refuted.
+Print Assumptions C17_deser_raw_trusted_refuted.
 Print Assumptions C17_init_setdefault_refuted.
 
 (* non-vacuity: a concrete two-step history (move a key, add a constant, delete, nested mapper,
@@ -214,9 +222,11 @@ Qed.
 (* non-vacuity of the deserialization theorems: the generated tables pass the predicates (C17_src_shapes_ok), and a
    version-1 document whose history renames a key deserializes, through the source's current tables, to an
    instance at version 2 that has the new attribute, keeps an undeclared one, and does not have the old one *)
-Definition ex_dclass : vclass := {| vc_fields := [s2p "new"]; vc_required := [s2p "new"]; vc_additional := None |}.
+Definition ex_dclass : vclass :=
+  {| vc_fields := [s2p "new"]; vc_required := [s2p "new"]; vc_additional := None; vc_trusted_eligible := false |}.
 Definition ex_dopts : dopts :=
-  {| o_keep_undefined := Some true; o_additional_default := true; o_ignore_invalid_additional := true |}.
+  {| o_keep_undefined := Some true; o_trusted := false; o_additional_default := true;
+     o_ignore_invalid_additional := true |}.
 Definition ex_ddoc : dict := (w_doc ++ [ (PStr (s2p "note"), PStr (s2p "vip")) ])%list.
 Example C17_deser_nonvacuous :
   forallb keeps_version w_maps = true /\ has_version ex_ddoc 1 /\
